@@ -4,7 +4,8 @@ Runtime monitoring of the REAL SwitchController / Switch on MPF's TimeTravelLoop
 
 Workload: generated timelines over 2-5 NO/NC switches: raw and logical reports (with duplicates) injected where a
 platform injects them, recording handlers added/removed through the public API (untimed and with hold times, plain
-and wrapped by return_info/callback_kwargs, registered once or several times), virtual-time gaps drawn around the
+and wrapped by return_info/callback_kwargs, registered once or several times, and ONE callback registered for
+BOTH states of a switch with the same hold time, one of the two removed inside the other's pending hold interval), virtual-time gaps drawn around the
 pending deadlines (+-0.5/1 ms and EXACTLY at them), operations scheduled through the loop at exactly a deadline, and
 operations performed from inside handler callbacks (reports, adds, removes).
 
@@ -60,6 +61,9 @@ ASSUMPTIONS = [
     "remove_switch_handler(name, callback, state, ms) is expected to remove a handler registered with "
     "return_info=True (docstring of remove_switch_handler); it is never used for callback_kwargs registrations, "
     "whose removal by plain callback is undocumented (those are removed by the key returned from add)",
+    "a callback object shared by two hold-time registrations (one per state of one switch, same ms) is attributed "
+    "to the registration named by return_info's state argument, else to the state of the last report (a hold-time "
+    "handler can only be due for the state the switch is in); removing one of the two must not silence the other",
     "hw_state (raw state, from the anchors/Switch docstring, not the statement) is compared only after the "
     "switch's first real change in the case, because boot never initialises it",
     "switches with ignore_window_ms>0 are checked against the recycle rule (one post when a window opens, a "
@@ -191,6 +195,44 @@ def _gen_add(rng, sim, depth=0, untimed=False):
     return op
 
 
+def _gen_twin(rng, sim, cb):
+    """Register the callback of timed handler `cb` for the OTHER state of the same switch too (same ms)."""
+    g = sim.cbs[cb]
+    new = sim.next_cb
+    sim.next_cb += 1
+    sim.cbs[new] = dict(g, st=g["st"] ^ 1, twin=cb)
+    g["twin"] = new
+    return {"k": "add", "cb": new, "sw": g["sw"], "st": g["st"] ^ 1, "ms": g["ms"], "ri": g["ri"], "kw": False,
+            "via": rng.choice(["name", "obj", "dev"]), "act": None, "twin_of": cb}
+
+
+def _gen_twin_motif(rng, sim):
+    """change into state X, then - inside X's hold interval - remove the registration of the same callback for
+    the opposite state, then go past the deadline with the switch still in X."""
+    pairs = [c for c, g in sim.cbs.items() if g.get("twin") is not None and g["ms"] >= 50]
+    if not pairs:
+        return []
+    cb = rng.choice(pairs)
+    g = sim.cbs[cb]
+    i, ms = g["sw"], g["ms"]
+    new = sim.st[i] ^ 1
+    lg = rng.random() < 0.4
+    out = [{"k": "rep", "sw": i, "v": new if lg else new ^ (1 if sim.sw[i]["nc"] else 0), "lg": lg,
+            "via": rng.choice(["name", "num", "obj"])}]
+    sim.st[i], sim.lc[i] = new, sim.t
+    dt = rng.choice([0.0, 0.001, round(ms / 2000.0, 3), round(ms / 1000.0 - 0.001, 3)])
+    out.append({"k": "adv", "dt": dt})
+    sim.t += dt
+    other = cb if g["st"] != new else g["twin"]          # the registration for the state the switch is NOT in
+    via = rng.choice(["key", "key", "raw", "obj"] if sim.cbs[other]["ri"] else ["key", "keys", "raw", "obj", "dev"])
+    out.append({"k": "rm", "cb": other, "via": via})
+    out.append({"k": "advd", "at": {"sw": i, "ms": ms, "off": rng.choice([0.0, 0.0005, 0.001])}})
+    sim.t = max(sim.t, sim.lc[i] + ms / 1000.0 + 0.001)
+    if rng.random() < 0.5:
+        out.append({"k": "readd", "cb": other})
+    return out
+
+
 def _gen_rm(rng, sim):
     if not sim.cbs:
         return None
@@ -242,6 +284,17 @@ def gen_case(rng, tier, index):
         ops.append(_gen_add(rng, sim, untimed=rng.random() < 0.5))
     while len(ops) < n_ops:
         r = rng.random()
+        # one callback registered for BOTH states of a switch with the same hold time (e.g. a debounced "changed")
+        last = ops[-1]
+        if last.get("k") == "add" and last["ms"] and not last["kw"] and last.get("twin_of") is None \
+                and sim.cbs[last["cb"]].get("twin") is None and rng.random() < 0.25:
+            ops.append(_gen_twin(rng, sim, last["cb"]))
+            continue
+        if r > 0.95:
+            motif = _gen_twin_motif(rng, sim)
+            if motif:
+                ops.extend(motif)
+                continue
         if r < 0.30:
             at = _gen_deadline(rng, sim) if rng.random() < 0.6 else None
             if at is not None:
@@ -295,7 +348,8 @@ class _Livelock(Exception):
 
 
 class _Group:
-    __slots__ = ("cb", "sw", "st", "ms", "ri", "kw", "act", "act_n", "fn", "inst", "fires", "calls", "pseudo")
+    __slots__ = ("cb", "sw", "st", "ms", "ri", "kw", "act", "act_n", "fn", "inst", "fires", "calls", "pseudo",
+                 "twin")
 
     def __init__(self, cb, sw, st, ms, ri=False, kw=False, act=None, act_n=1):
         self.cb, self.sw, self.st, self.ms, self.ri, self.kw = cb, sw, st, ms, ri, kw
@@ -305,6 +359,7 @@ class _Group:
         self.fires = []     # dicts: q, t, ctx
         self.calls = 0
         self.pseudo = False
+        self.twin = None    # group registered with the SAME callback object for the other state (same switch, ms)
 
 
 class _Rt:
@@ -326,7 +381,7 @@ class _Rt:
                    "removed_silent": 0, "events_once": 0, "recycle_events": 0, "no_crash": 0, "cb_args": 0}
         self.obs = {"reports": 0, "real_changes": 0, "duplicate_reports": 0, "raw_reports": 0, "nc_reports": 0,
                     "adds": 0, "adds_timed_in_state": 0, "removes": 0, "removes_of_pending": 0,
-                    "ops_in_callbacks": 0, "ops_in_event_handlers": 0, "ops_scheduled": 0, "fires_untimed": 0, "fires_timed": 0,
+                    "ops_in_callbacks": 0, "twin_registrations": 0, "twin_removed_while_other_pending": 0, "ops_in_event_handlers": 0, "ops_scheduled": 0, "fires_untimed": 0, "fires_timed": 0,
                     "events_seen": 0, "timers_scheduled_in_the_past": 0, "timed_must_fire": 0, "timed_must_not_fire": 0, "timed_either": 0,
                     "timed_mid_interval_adds_decided": 0, "advances": 0}
         self.tr = []
@@ -603,7 +658,13 @@ class _Rt:
         rt = self
 
         def recorder(*args, **kwargs):
-            rt.on_fire(g, args, kwargs)
+            # a callback shared by two registrations (one per state): return_info tells the state; otherwise a
+            # hold-time handler can only be due for the state the switch is in (last report)
+            tgt = g
+            if g.twin is not None:
+                st = kwargs.get("state") if g.ri and "state" in kwargs else rt.mstate[g.sw]
+                tgt = g if st == g.st else g.twin
+            rt.on_fire(tgt, args, kwargs)
         recorder.__name__ = "cb%d" % g.cb
         return recorder
 
@@ -615,7 +676,13 @@ class _Rt:
         if g is None:
             g = _Group(cb, op["sw"], int(op["st"]), int(op["ms"]), bool(op.get("ri")), bool(op.get("kw")),
                        op.get("act"), int(op.get("act_n") or 1))
-            g.fn = self.make_fn(g)
+            o = self.groups.get(op.get("twin_of")) if op.get("twin_of") is not None else None
+            if o is not None and o.twin is None and o.ms and not o.kw and not o.pseudo and \
+                    (o.sw, o.ms, o.ri, o.kw, 1 - o.st) == (g.sw, g.ms, g.ri, g.kw, g.st):
+                g.fn, g.twin, o.twin = o.fn, o, g       # the very same callback object, other state
+                self.obs["twin_registrations"] += 1
+            else:
+                g.fn = self.make_fn(g)
             self.groups[cb] = g
         self.register(g, op.get("via"), where)
 
@@ -668,6 +735,10 @@ class _Rt:
         if g.ms and covered and self.mstate[g.sw] == g.st and self.changes[g.sw] and \
                 self.changes[g.sw][-1]["t"] + g.ms / 1000.0 > t:
             self.obs["removes_of_pending"] += 1
+        o = g.twin
+        if o is not None and covered and self.mstate[o.sw] == o.st and self.changes[o.sw] and \
+                any(x["qr"] is None for x in o.inst) and self.changes[o.sw][-1]["t"] + o.ms / 1000.0 > t + EPS:
+            self.obs["twin_removed_while_other_pending"] += 1
         self.log("REMOVE cb%d via %s covering %d registration(s) (%s)" % (g.cb, via, len(covered), where))
         try:
             if via == "key":
@@ -1151,7 +1222,8 @@ def _shape(case):
         if k == "rep":
             out.append("L" if op["lg"] else "R")
         elif k == "add":
-            out.append("A%d%s%s" % (op["ms"], "!" if op.get("act") else "", "w" if op.get("ri") or op.get("kw") else ""))
+            out.append("A%d%s%s%s" % (op["ms"], "!" if op.get("act") else "",
+                                      "w" if op.get("ri") or op.get("kw") else "", "=" if op.get("twin_of") is not None else ""))
         elif k == "readd":
             out.append("D")
         elif k == "rm":
